@@ -1,2 +1,97 @@
-(** C01 — operator core (stub, being built). *)
-Require Import SqlV.Base SqlV.PrecSpec SqlV.Pratt SqlV.PrattProofs SqlV.PrinterCore.
+(** C01 — parse -> print -> parse is a fixpoint: the operator core.
+    Statements only; instances of PrinterCoreProofs / PrattProofs on the tables regenerated from
+    the running crate.  (Statements, queries, DDL/DML and the other Expr variants are outside the
+    model: for them the property is evaluated on the implementation by lib/props/C01.py.) *)
+Require Import SqlV.Base SqlV.PrecSpec SqlV.Pratt SqlV.PrattProofs SqlV.PrinterCore SqlV.PrinterCoreProofs
+  SqlVGen.PrecTables SqlVGen.DialectTables SqlVGen.PrinterTables.
+Require SqlV.Lexer.
+
+(** generated side conditions *)
+Lemma C01_tables_ok : forall f d lv extra, In (f, d, lv, extra) PrecTables.all_dialects ->
+  lvl d K_UNKNOWN = 0 /\ lvl d K_AND <= lvl d C_Between.
+Proof.
+  intros f d lv extra H. cbn [PrecTables.all_dialects In] in H.
+  repeat (destruct H as [H|H]; [inversion H; subst; split; vm_compute; congruence|]). destruct H.
+Qed.
+
+(** (b) the classical Pratt round trip: for EVERY tree satisfying the parser's invariant (not only
+    parser outputs), every dialect table, whatever follows: parsing the tree's tokens returns it. *)
+Theorem C01_token_roundtrip : forall f d lv extra e p rest fuel,
+  In (f, d, lv, extra) PrecTables.all_dialects ->
+  (height e < fuel)%nat -> shape d e -> wf (flags_of d) (lvl d) e -> lspine_gt (lvl d) p e ->
+  rspine_ge (flags_of d) (lvl d) (np d rest) e -> np d rest <= p -> esc_safe e rest ->
+  frag_ok d (yield e ++ rest) = true ->
+  parse_sub d fuel p (yield e ++ rest) = Ok (e, rest).
+Proof.
+  intros f d lv extra e p rest fuel Hin. destruct (C01_tables_ok f d lv extra Hin) as [U0 Hand].
+  exact (token_roundtrip d U0 Hand e p rest fuel).
+Qed.
+Print Assumptions C01_token_roundtrip.
+
+(** the same with the boolean image predicate that the check evaluates on every tree the
+    implementation returns *)
+Theorem C01_image_roundtrip : forall f d lv extra e rest,
+  In (f, d, lv, extra) PrecTables.all_dialects ->
+  imgb d e rest = true -> parse_expr d (yield e ++ rest) = Ok (e, rest).
+Proof.
+  intros f d lv extra e rest Hin. destruct (C01_tables_ok f d lv extra Hin) as [U0 Hand].
+  exact (imgb_roundtrip d e rest U0 Hand).
+Qed.
+Print Assumptions C01_image_roundtrip.
+
+(** (a)+(b) for parser outputs: the tree keeps every token; printing in canonical spelling and
+    parsing again gives the same tree and the same remainder; printing is idempotent. *)
+Theorem C01_core : forall f d lv extra ts e rest,
+  In (f, d, lv, extra) PrecTables.all_dialects -> canonical e = true ->
+  parse_expr d ts = Ok (e, rest) -> parse_expr d (ptoks e ++ rest) = Ok (norm e, rest).
+Proof.
+  intros f d lv extra ts e rest Hin. destruct (C01_tables_ok f d lv extra Hin) as [U0 _].
+  exact (PrinterCoreProofs.C01_core d ts e rest U0).
+Qed.
+Print Assumptions C01_core.
+
+Theorem C01_core_tokens : forall f d lv extra ts e rest,
+  In (f, d, lv, extra) PrecTables.all_dialects ->
+  parse_expr d ts = Ok (e, rest) -> parse_expr d (yield e ++ rest) = Ok (e, rest).
+Proof.
+  intros f d lv extra ts e rest Hin. destruct (C01_tables_ok f d lv extra Hin) as [U0 _].
+  exact (PrinterCoreProofs.C01_core_tokens d ts e rest U0).
+Qed.
+
+Theorem C01_print_idempotent : forall e, canonical e = true -> ptoks (norm e) = ptoks e.
+Proof. exact print_idempotent. Qed.
+
+(** uniqueness of the C04 specification, a corollary of the round trip *)
+Theorem C01_correct_unique : forall f d lv extra t t' ts,
+  In (f, d, lv, extra) PrecTables.all_dialects ->
+  Correct_gen (flags_of d) (lvl d) t ts -> Correct_gen (flags_of d) (lvl d) t' ts ->
+  shape d t -> shape d t' -> frag_ok d ts = true -> t = t'.
+Proof.
+  intros f d lv extra t t' ts Hin. destruct (C01_tables_ok f d lv extra Hin) as [U0 Hand].
+  exact (correct_unique d U0 Hand t t' ts).
+Qed.
+Print Assumptions C01_correct_unique.
+
+(** (c) glue [lexview (pp e) = ptoks e] is FALSE for the printer as it is: refuted inside the
+    kernel with the lexer model of Lexer.v (known findings core:prefix-pair:*, core:postfix-pair:!!,
+    core:ilike-any-escape).  The check evaluates the glue statement on every case instead. *)
+Definition x1 := EAtom false 1.
+Example C01_glue_minus_minus_refuted :
+  lexview dl_generic std_uni (pp optext_generic (EPre K_Minus (EPre K_Minus x1))) = Some []
+  /\ ptoks (EPre K_Minus (EPre K_Minus x1)) = [TOp K_Minus; TOp K_Minus; TAtom false 1].
+Proof. split; vm_compute; reflexivity. Qed.
+Example C01_glue_pg_at_at_refuted :
+  lexview dl_postgresql std_uni (pp optext_postgresql (EPre 88 (EPre 88 x1))) = Some [TOp 82; TAtom false 1].
+Proof. vm_compute. reflexivity. Qed.
+Example C01_glue_postfix_pair_refuted :
+  lexview dl_generic std_uni (pp optext_generic (EPostfix (EPostfix x1))) = Some [TAtom false 1; TPre 87].
+Proof. vm_compute. reflexivity. Qed.
+Example C01_glue_ilike_any_escape_refuted :
+  lexview dl_generic std_uni (pp optext_generic (ELike LILike false true x1 (EAtom false 2) (Some (true, 1))))
+  <> Some (ptoks (ELike LILike false true x1 (EAtom false 2) (Some (true, 1)))).
+Proof. vm_compute. discriminate. Qed.
+(** ... and holds on an ordinary instance *)
+Example C01_glue_instance :
+  lexview dl_generic std_uni (pp optext_generic (EBin K_Plus (EPre K_Minus x1) (ENot (EAtom true 2))))
+  = Some (ptoks (EBin K_Plus (EPre K_Minus x1) (ENot (EAtom true 2)))).
+Proof. vm_compute. reflexivity. Qed.
